@@ -53,6 +53,8 @@ def build_harness(cfgs, profiles):
     log("[build] harness %d builds in %.1fs, %d failed" % (len(jobs), time.time() - t0, len(fails)))
     return fails
 
+TABLE32_FOUND = False
+
 def regen(cfgs):
     """dump every table/constant from the compiled crate and translate to MinLex/Gen/*.lean"""
     os.makedirs(WORK, exist_ok=True)
@@ -67,8 +69,11 @@ def regen(cfgs):
         open(tmp, "w").write(out)
         os.replace(tmp, p)          # atomic: checks may run concurrently
         args.append("%s=%s" % (c, p))
-    rc, out = sh([sys.executable, os.path.join(VERIF, "gen", "gen_lean.py"), os.path.join(LEAN, "MinLex", "Gen")] + args)
+    rc, out = sh([sys.executable, os.path.join(VERIF, "gen", "gen_lean.py"), os.path.join(LEAN, "MinLex", "Gen")] + args,
+                 env=dict(ENV, HX_REPO=REPO))
     notes = [l for l in out.splitlines() if l.startswith("CONFIG-DEPENDENT")]
+    global TABLE32_FOUND
+    TABLE32_FOUND = "TABLE32 found" in out
     log("[gen] " + out.strip().splitlines()[-1])
     if rc != 0:
         notes.append("gen_lean failed: " + out[-500:])
